@@ -447,9 +447,14 @@ std::vector<Node::ControlEndpoint> Node::preferred_control_endpoints() const {
         }
     }
 
-    for (const auto& candidate : config_.auto_advertise_candidates) {
-        const auto port = candidate.port != 0 ? candidate.port : fallback_port;
-        append(candidate.host, port, false);
+    // Candidates that auto-advertise withheld (warn mode with conflicting candidates) stay withheld here too.
+    const bool candidates_withheld = config_.advertise_auto_mode == Config::AdvertiseAutoMode::Off
+        || (config_.advertise_auto_mode == Config::AdvertiseAutoMode::Warn && config_.auto_advertise_conflict);
+    if (!candidates_withheld) {
+        for (const auto& candidate : config_.auto_advertise_candidates) {
+            const auto port = candidate.port != 0 ? candidate.port : fallback_port;
+            append(candidate.host, port, false);
+        }
     }
 
     if (transport_port != 0) {
@@ -2695,7 +2700,16 @@ std::string Node::self_endpoint() const {
     }
 
     if (nat_status_.has_value() && !nat_status_->external_address.empty() && nat_status_->external_port != 0) {
-        return nat_status_->external_address + ":" + std::to_string(nat_status_->external_port);
+        // A STUN-discovered address is only used when auto-advertise actually published it; otherwise it
+        // would bypass the private-address filter and the off / warn modes.
+        const bool published = std::any_of(config_.advertised_endpoints.begin(),
+                                           config_.advertised_endpoints.end(),
+                                           [&](const Config::AdvertisedEndpoint& endpoint) {
+                                               return !endpoint.manual && endpoint.host == nat_status_->external_address;
+                                           });
+        if (!nat_status_->stun_succeeded || published) {
+            return nat_status_->external_address + ":" + std::to_string(nat_status_->external_port);
+        }
     }
 
     const auto& host = !config_.control_host.empty() ? config_.control_host : std::string{"127.0.0.1"};
